@@ -487,7 +487,7 @@ def worker_setup():
     return _CTX
 
 
-def gen_invivo_ops(rng, n_modules=None, size=None, p_history=0.35):
+def gen_invivo_ops(rng, n_modules=None, size=None, p_history=0.35, subs=("run", "run", "semantic")):
     """pure-data description of one in-vivo run: project files + run options + loader knobs."""
     from sim import projgen
     n_modules = n_modules or rng.choice([1, 2, 2, 3])
@@ -543,7 +543,7 @@ def gen_invivo_ops(rng, n_modules=None, size=None, p_history=0.35):
             # removed code: no imports, no classes, hardly any call left
             ops = [{"op": "file", "path": p_, "content": prev[p_] if rng.random() < 0.25 else
                     rng.choice(["x = 1\n", "def only(alpha):\n    return alpha\n", "VALUE = source()\n"])} for p_ in sorted(prev)]
-    ops.append({"op": "run", "lang": lang, "history": history, "plugin": rng.random() < 0.5, "sub": rng.choice(["run", "run", "semantic"]),
+    ops.append({"op": "run", "lang": lang, "history": history, "plugin": rng.random() < 0.5, "sub": rng.choice(list(subs)),
                 "flags": sorted(set(rng.sample(["--enable-p2", "--nomock", "--graph"], rng.randint(0, 2)))),
                 "max_rows": rng.choice([1, 3, 8, 20, 60, 400000]),
                 "caps": {"LRU_CACHE_CAPACITY": rng.choice([1, 2, 3, 20]), "BUNDLE_CACHE_CAPACITY": rng.choice([1, 2]),
